@@ -64,6 +64,26 @@ def lib():
             self.sink.append(model_state)
             return TransitionOutcome(DefaultTransitionInfo(0, 1.0, 1), kernel_state, model_state)
 
+    from liesel.goose.kernel import ModelMixin
+
+    class ErrKernel(ModelMixin):
+        """kernel of the harness that always writes its scripted position back (like Gibbs) and reports the error
+        code found in its kernel state - legal kernel behaviour: the code is bookkeeping (as NUTS' 'maximum tree
+        depth reached'), the returned state is the state"""
+        error_book = {0: "no errors", 1: "warning 1", 2: "warning 2", 3: "warning 3", 90: "warning 90"}
+        needs_history = False
+        identifier = ""
+
+        def __init__(self, names, fn):
+            self.position_keys = tuple(names)
+            self._fn = fn
+            self._model = None
+
+        def transition(self, prng_key, kernel_state, model_state, epoch):
+            new = self.model.update_state(self._fn(model_state), model_state)
+            return TransitionOutcome(DefaultTransitionInfo(kernel_state["code"], 1.0, 1), kernel_state, new)
+
+    _lib.update(ErrKernel=ErrKernel)
     _lib.update(jax=jax, jnp=jnp, gs=gs, EpochConfig=EpochConfig, EpochType=EpochType,
                 KernelSequence=KernelSequence, RWKernelState=RWKernelState, Spy=Spy)
     return _lib
@@ -155,6 +175,8 @@ def drive(R, kernels, iters, seed=0):
         names = [key_name(R, kd) for kd in kern["keys"]]
         if kern["kind"] == "gibbs":
             ko = gs.GibbsKernel(names, (lambda kern: lambda key, ms: proposal_of(kern, ms))(kern))
+        elif kern["kind"] == "errk":
+            ko = L["ErrKernel"](names, (lambda kern: lambda ms: proposal_of(kern, ms))(kern))
         else:
             ko = gs.MHKernel(names, (lambda kern: lambda key, ms, step: gs.MHProposal(proposal_of(kern, ms), step))(kern))
         ko.identifier = f"k{j}"
@@ -173,6 +195,8 @@ def drive(R, kernels, iters, seed=0):
         for j, kern in enumerate(kernels):
             if kern["kind"] == "gibbs":
                 kstates.append({})
+            elif kern["kind"] == "errk":
+                kstates.append({"code": int(it.get("codes", [0] * len(kernels))[j])})
             else:
                 mode = it["modes"][j]
                 ctl = {"accept": jnp.inf, "reject": -jnp.inf, "natural": 0.0}[mode]
@@ -192,13 +216,79 @@ def drive(R, kernels, iters, seed=0):
         for j, ms in enumerate(states_after):
             vals, flags = R.observe_state(ms)
             info = res.infos[f"k{j}"]
-            steps.append({"moved": bool(info.position_moved), "vals": vals, "flags": flags})
+            steps.append({"moved": bool(info.position_moved), "code": int(info.error_code), "vals": vals, "flags": flags})
         out.append({"raised": False, "steps": steps})
         state = res.model_state
     return out
 
 
+def drive_builder(R, c):
+    """the same scripted (Gibbs) kernels, but configured through EngineBuilder.add_kernel - with user-assigned /
+    default / re-used identifiers - and run by the real jitted Engine; only the state after every iteration is
+    observed (SamplingResults).  c["kernels"] is the CONFIGURED order (the order of add_kernel in the builder
+    under test)."""
+    L = lib()
+    jnp, gs = L["jnp"], L["gs"]
+    EpochConfig, EpochType = L["EpochConfig"], L["EpochType"]
+    names = R.order
+
+    def make(kern):
+        keys = [names[k] for k, _ in kern["keys"]]
+
+        def fn(key, ms):
+            return {names[k]: apply_fs(fs, [ms[names[a]] for a in args])
+                    for (k, _), fs, args in zip(kern["keys"], kern["prop_fs"], kern["prop_args"])}
+        return gs.GibbsKernel(keys, fn)
+
+    objs = [make(k) for k in c["kernels"]]
+    for o, ident in zip(objs, c["idents"]):
+        if ident:
+            o.identifier = ident
+    state0 = {n: jnp.asarray(v, dtype=jnp.int32) for n, v in zip(names, R.spec["vals"])}
+
+    def builder_with(order):
+        b = gs.EngineBuilder(seed=c.get("seed", 1), num_chains=c["chains"])
+        b.set_model(R.iface)
+        b.set_initial_values(state0)
+        for j in order:
+            b.add_kernel(objs[j])
+        b.set_epochs([EpochConfig(EpochType.INITIAL_VALUES, 1, 1, None), EpochConfig(EpochType.POSTERIOR, c["T"], 1, None)])
+        b.positions_included = list(names)
+        b.show_progress = False
+        return b
+
+    if c.get("first_order"):
+        # the kernel objects were first used in another builder (in another order): they keep the identifiers
+        # that build assigned
+        builder_with(c["first_order"]).build()
+    engine = builder_with(range(len(objs))).build()
+    engine.sample_all_epochs()
+    samples = engine.get_results().get_samples()
+    import numpy as np
+    arr = {n: np.asarray(samples[n]) for n in names}
+    c["final_idents"] = [o.identifier for o in objs]
+    T1 = arr[names[0]].shape[1]
+    out = []
+    c["chains_differ"] = None
+    for t in range(1, T1):
+        vals = [int(arr[n][0, t]) for n in names]
+        for ch in range(1, c["chains"]):
+            other = [int(arr[n][ch, t]) for n in names]
+            if other != vals and not c["chains_differ"]:
+                c["chains_differ"] = f"iteration {t - 1}: chain 0 {vals}, chain {ch} {other}"
+        step = {"moved": True, "code": 0, "vals": vals, "flags": [False] * len(names)}
+        out.append({"raised": False, "final_only": True, "steps": [dict(step) for _ in c["kernels"]]})
+    return out
+
+
 def run_d_case(c):
+    if c.get("via") == "builder":
+        R = make_real(c)
+        c.update(order=list(R.order), kinds=list(R.kinds), ins=[list(x) for x in R.ins], fs=R.fs,
+                 init={"vals": list(R.spec["vals"]), "flags": [False] * len(R.order)})
+        c["iters"] = [{"modes": ["accept"] * len(c["kernels"]), "codes": [0] * len(c["kernels"]), "epoch": 0} for _ in range(c["T"])]
+        c["its"] = drive_builder(R, c)
+        return c
     R = make_real(c)
     v0, f0 = R.observe_state(R.state0)
     c.update(order=list(R.order), kinds=list(R.kinds), ins=[list(x) for x in R.ins], fs=R.fs,
@@ -213,7 +303,7 @@ def run_d_case(c):
     return c
 
 
-D_SCENARIOS = ["mixed", "all_reject", "gibbs_only", "mh_only", "natural", "raises", "var_names", "dict", "mixed", "shared_reads"]
+D_SCENARIOS = ["mixed", "all_reject", "gibbs_only", "mh_only", "natural", "raises", "var_names", "dict", "error_codes", "shared_reads"]
 
 
 def gen_kernels(rnd, R, scenario):
@@ -230,7 +320,11 @@ def gen_kernels(rnd, R, scenario):
             rnd.choice(blocks).append(k)
     kernels = []
     for b in blocks:
-        kind = {"gibbs_only": "gibbs", "mh_only": "mh"}.get(scenario) or rnd.choice(["gibbs", "mh", "mh"])
+        kind = {"gibbs_only": "gibbs", "mh_only": "mh"}.get(scenario) or rnd.choice(["gibbs", "mh", "mh", "errk"])
+        if scenario == "error_codes":
+            # forced stratum: kernels that move their block AND report a non-zero error code, each followed by a
+            # kernel that reads that block
+            kind = "errk" if (len(kernels) % 2 == 0 or rnd.random() < 0.4) else rnd.choice(["gibbs", "mh"])
         keys = []
         for k in b:
             via = "var" if (R.order[k] in R.var_of and (scenario == "var_names" or rnd.random() < 0.3)) else "node"
@@ -239,7 +333,9 @@ def gen_kernels(rnd, R, scenario):
         for k in b:
             na = rnd.randint(1, 3)
             pool = stored
-            if scenario == "shared_reads" or rnd.random() < 0.5:
+            if scenario == "error_codes" and kernels:
+                pool = [kk for kk, _ in kernels[-1]["keys"]]          # what the predecessor just wrote
+            elif scenario == "shared_reads" or rnd.random() < 0.5:
                 # read what the other kernels write and what is derived from it
                 others = [x for bb in blocks if bb is not b for x in bb]
                 pool = others + [x for x in stored if R.kinds[x] == "C"] or stored
@@ -274,7 +370,9 @@ def gen_iters(rnd, kernels, scenario, quick):
                 modes.append("natural")
             else:
                 modes.append(rnd.choice(["accept", "accept", "reject", "natural"]))
-        its.append({"modes": modes, "epoch": rnd.randrange(4)})
+        codes = [(rnd.choice([1, 2, 3, 90, 2, 0]) if scenario == "error_codes" else rnd.choice([0, 0, 2, 90]))
+                 if k["kind"] == "errk" else 0 for k in kernels]
+        its.append({"modes": modes, "codes": codes, "epoch": rnd.randrange(4)})
     return its
 
 
@@ -310,6 +408,42 @@ def make_d_case(rnd, quick, scenario, flavour, trace=False):
     raise RuntimeError("could not generate a buildable description")
 
 
+B_IDENTS = {
+    # user-assigned identifiers whose sort order is not the configured order
+    "custom_unsorted": lambda rnd, n: rnd.sample(["update_x", "copy_x_to_y", "zeta", "alpha", "m_step", "b2", "a10"], n),
+    # first kernel named by the user, the others left to the builder: 'kernel_01' < 'shift_x'
+    "custom_first": lambda rnd, n: ["shift_x"] + [""] * (n - 1),
+    # all identifiers left to the builder (sorted order == configured order)
+    "default": lambda rnd, n: [""] * n,
+    # kernel objects re-used in a second builder in another order (they keep 'kernel_00', ... of the first build)
+    "reused": lambda rnd, n: [""] * n,
+}
+
+
+def make_b_case(rnd, scenario, nk=None, T=3):
+    nk = nk or rnd.randint(2, 4)
+    nv = nk + rnd.randint(0, 2)
+    spec = {"vals": [rnd.randint(-50, 50) for _ in range(nv)],
+            "lp": ["aff", rnd.randint(0, 999), [rnd.randint(1, 9) for _ in range(nv)]]}
+    kernels = []
+    for j in range(nk):
+        # digest chain: kernel j writes a function of its own block and of the block kernel j-1 wrote
+        args = [j, (j - 1) % nk] + ([rnd.randrange(nv)] if rnd.random() < 0.5 else [])
+        kernels.append({"kind": "gibbs", "keys": [[j, "node"]],
+                        "prop_fs": [["aff", rnd.randint(1, 999), [rnd.randint(2, 9) for _ in args]]], "prop_args": [args]})
+    idents = B_IDENTS[scenario](rnd, nk)
+    if scenario == "custom_unsorted" and idents == sorted(idents):
+        idents = idents[::-1]
+    c = {"layer": "D", "model": "dict", "via": "builder", "spec": spec, "scenario": "builder_" + scenario, "flavour": "dict",
+         "kernels": kernels, "idents": idents, "T": T, "chains": rnd.choice([1, 2]), "seed": rnd.randrange(1000)}
+    if scenario == "reused":
+        fo = list(range(nk))
+        while fo == list(range(nk)):
+            rnd.shuffle(fo)
+        c["first_order"] = fo
+    return run_d_case(c)
+
+
 CORPUS_D = [
     # a -> c -> lp, b -> lp; MH on a (accept, reject), Gibbs on b reading a and c
     {"layer": "D", "model": "liesel", "scenario": "corpus", "flavour": "corpus", "order_seed": 0,
@@ -322,6 +456,15 @@ CORPUS_D = [
                          {"kind": "gibbs", "keys": [["n1", "node"]], "prop_fs": [["aff", 2, [2, 3]]], "prop_args": [["n0", "n2"]]}],
      "iters": [{"modes": ["accept", "accept"], "epoch": 0}, {"modes": ["reject", "accept"], "epoch": 0},
                {"modes": ["natural", "accept"], "epoch": 1}]},
+    # a kernel that moves its block and reports error code 2 ("maximum tree depth"-like), followed by a kernel that
+    # reads that block   (seeded change C09-3: the moved state is dropped when the code is not 0)
+    {"layer": "D", "model": "liesel", "scenario": "corpus", "flavour": "corpus", "order_seed": 0,
+     "spec": {"items": [{"k": "value", "v": 1, "data": False}, {"k": "value", "v": 2, "data": False},
+                        {"k": "calc", "ins": [0, 1], "kw": [], "kwn": [], "fs": ["aff", 3, [2, 5]]}]},
+     "kernels_by_name": [{"kind": "errk", "keys": [["n0", "node"]], "prop_fs": [["aff", 1, [3]]], "prop_args": [["n0"]]},
+                         {"kind": "gibbs", "keys": [["n1", "node"]], "prop_fs": [["aff", 2, [2, 3]]], "prop_args": [["n0", "n2"]]}],
+     "iters": [{"modes": ["accept", "accept"], "codes": [2, 0], "epoch": 0}, {"modes": ["accept", "accept"], "codes": [0, 0], "epoch": 0},
+               {"modes": ["accept", "accept"], "codes": [90, 0], "epoch": 1}]},
     # strong Var with a distribution whose parameter is another Var: keys by var name; three kernels
     {"layer": "D", "model": "liesel", "scenario": "corpus", "flavour": "corpus", "order_seed": 1,
      "spec": {"items": [{"k": "var", "weak": False, "role": "par", "v": 3},
@@ -383,6 +526,24 @@ def oracle_d(c):
             continue
         if not valid:
             return f"iteration {t}: a position key does not name a settable node, yet no exception"
+        if it.get("final_only"):
+            # run through EngineBuilder + Engine: only the state after the iteration is observed
+            sim = list(cur)
+            for kern in c["kernels"]:
+                new = [apply_fs(fs, [sim[a] for a in args]) for fs, args in zip(kern["prop_fs"], kern["prop_args"])]
+                for (k, _), v in zip(kern["keys"], new):
+                    sim[k] = v
+                sim = pg.scratch(sim)
+            got = it["steps"][0]["vals"]
+            if got != sim:
+                ids = c.get("idents")
+                return (f"iteration {t}: kernels added to the EngineBuilder in the order {ids} (blocks "
+                        f"{[[names[k] for k, _ in kern['keys']] for kern in c['kernels']]}); from the state {dict(zip(names, cur))} the "
+                        f"configured order gives {dict(zip(names, sim))}, the engine stored {dict(zip(names, got))}")
+            if c.get("chains_differ"):
+                return f"iteration {t}: chains started from the same state with deterministic kernels differ: {c['chains_differ']}"
+            cur = got
+            continue
         for j, (kern, st) in enumerate(zip(c["kernels"], it["steps"])):
             where = f"iteration {t}, after kernel {j} ({kern['kind']} on {[names[k] for k, _ in kern['keys']]})"
             r = coherent(st["vals"], st["flags"], where)
@@ -402,12 +563,13 @@ def oracle_d(c):
                 return f"{where}: log-correction +inf but the proposal was not accepted"
             if kern["kind"] == "mh" and spec["modes"][j] == "reject" and st["moved"]:
                 return f"{where}: log-correction -inf but the proposal was accepted"
-            if st["moved"] or kern["kind"] == "gibbs":
+            if st["moved"] or kern["kind"] in ("gibbs", "errk"):
                 for k, fs, args in zip(keys, kern["prop_fs"], kern["prop_args"]):
                     want = apply_fs(fs, [cur[a] for a in args])
                     if st["vals"][k] != want:
-                        return (f"{where}: wrote {names[k]} = {st['vals'][k]}; computed from the state its predecessor left "
-                                f"({[names[a] for a in args]} = {[cur[a] for a in args]}) the write is {want}")
+                        code = f" (the kernel reported error code {st.get('code')})" if st.get("code") else ""
+                        return (f"{where}: its successor received {names[k]} = {st['vals'][k]}; computed from the state its predecessor "
+                                f"left ({[names[a] for a in args]} = {[cur[a] for a in args]}) the kernel wrote {want}{code}")
             cur = st["vals"]
     return None
 
@@ -429,15 +591,15 @@ def d_case_lit(c):
     g = lst(c01.node_lit(k, i, f) for k, i, f in zip(c["kinds"], c["ins"], c["fs"]))
     kss = []
     for kern in c["kernels"]:
-        kind = "KMH" if kern["kind"] == "mh" else "KAlways"
+        kind = "KMH" if kern["kind"] == "mh" else "KAlways"       # gibbs, errk: unconditional write-back
         keys = lst(natlit(k) for k, _ in kern["keys"])
         prop = lst(f"({natlit(k[0])}, {fs_lit(fs)}, {lst(natlit(a) for a in args)})"
                    for k, fs, args in zip(kern["keys"], kern["prop_fs"], kern["prop_args"]))
         kss.append(f"(mkKS {kind} {keys} {prop})")
     its = []
     for it in c["its"]:
-        steps = lst(f"({blit(s['moved'])}, {obs_lit(s['vals'], s['flags'])})" for s in it["steps"])
-        its.append(f"(mkIt {blit(it['raised'])} {steps})")
+        steps = lst(f"({blit(s['moved'])}, {natlit(s.get('code', 0))}, {obs_lit(s['vals'], s['flags'])})" for s in it["steps"])
+        its.append(f"(mkIt {blit(it['raised'])} {blit(it.get('final_only', False))} {steps})")
     return (f"(mkCase {g}\n   {obs_lit(c['init']['vals'], c['init']['flags'])}\n   {lst(kss)}\n   {lst(its)})")
 
 
@@ -511,6 +673,12 @@ def generate(ctx):
         fl = flavours[(i // len(D_SCENARIOS)) % len(flavours)]
         cases.append(make_d_case(rnd, ctx.quick, sc, fl, trace=(i % 8 == 3)))
         i += 1
+    # forced stratum: the kernel order configured through EngineBuilder.add_kernel (identifiers user-assigned and
+    # unsorted / partly default / default / re-used objects), run by the real jitted Engine
+    bsc = ["custom_unsorted", "custom_first", "reused", "custom_unsorted", "reused", "default"] if ctx.quick else \
+          ["custom_unsorted", "custom_first", "reused", "default"] * 6
+    for j, sc in enumerate(bsc):
+        cases.append(make_b_case(rnd, sc, nk=(2 + j % 3)))
     from . import c09_float
     fcases = c09_float.generate(ctx, rnd)
     cases += fcases
@@ -634,7 +802,8 @@ def replay(rp) -> int:
     if c["layer"] == "F":
         from . import c09_float
         return c09_float.replay(c)
-    cc = {k: c[k] for k in ("layer", "model", "spec", "scenario", "flavour", "order", "order_seed", "kernels", "iters", "seed", "trace") if k in c}
+    cc = {k: c[k] for k in ("layer", "model", "spec", "scenario", "flavour", "order", "order_seed", "kernels", "iters", "seed", "trace",
+                                  "via", "idents", "T", "chains", "first_order") if k in c}
     try:
         cc = run_d_case(cc)
     except Exception as ex:
